@@ -541,8 +541,10 @@ are stored resolved after it (dead-code elimination resolves all of them at the 
 harness compares the intermediate stages with every operand resolved on both sides. -/
 
 /-- One visit of a block in the loop of `passRedundantPhiEliminationOpt`: the redundant parameters are found
-first, then removed (from the last to the first, so that the indices stay valid). -/
+first, then removed (from the last to the first, so that the indices stay valid).  The entry block is never
+visited (the Go loop skips the first block of the reverse post-order). -/
 def phiVisit (f : Func) (b : BlockId) : Func × Bool :=
+  if b = f.entry then (f, false) else
   match f.findBlock b with
   | none => (f, false)
   | some B =>
